@@ -5,9 +5,9 @@ import random
 
 from common import BAD_KEYS, BAD_VALUES
 
-KEYS = ["a", "b", "c", "k", "", "x y", "é", "\U0001f600", "q\"\\\n"]
+KEYS = ["a", "b", "c", "k", "", "x y", "é", "\U0001f600", "q\"\\\n", "_p", "_p", "get"]
 DOT_KEYS = ["a.b", ".", "x."]
-SCALARS = [None, True, False, 0, 1, -1, 2, 7, 2 ** 70, -(2 ** 65), 0.0, -0.0, 1.0, 2.0, 0.5, -1.5,
+SCALARS = [None, True, False, 0, 1, -1, 2, 7, 2 ** 70, -(2 ** 65), 2 ** 1024, -(10 ** 400) - 7, 2 ** 1023, 0.0, -0.0, 1.0, 2.0, 0.5, -1.5,
            1e308, 5e-324, 1.5e-7, "", "a", "b", "1", "é", "\U0001f600", "q\"\\\n\t", "\ud800"]
 SMALL_SCALARS = [None, True, False, 0, 1, 2, 1.0, 0.5, "a", "b", ""]
 
@@ -23,14 +23,29 @@ class G:
         return self.r.choice(KEYS[:5] if self.r.random() < 0.8 else KEYS)
 
     def value(self, depth=3, small=False):
+        """A JSON value; now and then a DAG: one container object referenced from two places (never a cycle)."""
+        v = self._value(depth, small)
+        if depth >= 2 and isinstance(v, (list, dict)) and self.r.random() < 0.12:
+            inner = [c for c in (v.values() if isinstance(v, dict) else v) if isinstance(c, (list, dict))]
+            if inner:
+                c = self.r.choice(inner)
+                if isinstance(v, dict):
+                    v[self.r.choice(["k", "c", "dup"])] = c
+                    if self.r.random() < 0.5:
+                        v["dup2"] = [c, c]
+                else:
+                    v.append(c)
+        return v
+
+    def _value(self, depth=3, small=False):
         r = self.r.random()
         if depth <= 0 or r < 0.45:
             return self.scalar(small)
         if r < 0.72:
-            return [self.value(depth - 1, small) for _ in range(self.r.choice([0, 1, 1, 2, 3, 4]))]
+            return [self._value(depth - 1, small) for _ in range(self.r.choice([0, 1, 1, 2, 3, 4]))]
         d = {}
         for _ in range(self.r.choice([0, 1, 1, 2, 3])):
-            d[self.key()] = self.value(depth - 1, small)
+            d[self.key()] = self._value(depth - 1, small)
         return d
 
     def vlist(self, depth=2, maxlen=5, small=False):
